@@ -27,6 +27,11 @@ func (e *Engine) newUnit(name string, fn *ssa.Function, con *Contract) *Unit {
 		usedTrusted: map[string]bool{}, pureApps: map[string]bool{}, mapAxDone: map[string]bool{},
 		globalVals: map[string]*SV{}, closures: map[*Term]*closureVal{}, usedContracts: map[string]bool{}}
 	u.alloc0 = u.c.Const("alloc0", SInt)
+	u.c.allocBase = map[int]bool{u.alloc0.id: true}
+	u.c.oldRoot = map[int]bool{}
+	u.c.rootTag = map[int]interface{}{}
+	u.c.allocLB = map[int]*Term{}
+	u.c.incompat = rootsIncompatible
 	u.assume(nil, u.c.Le(u.c.Int(1), u.alloc0))
 	u.entry = &State{heap: map[string]*Term{}, alloc: u.alloc0, iters: map[ssa.Value]*iterState{}}
 	if con != nil {
@@ -257,7 +262,8 @@ func (o *Obligation) VC() []*Term {
 	hyps = append(hyps, u.aliasFacts(o.NAssume)...)
 	kept := filterRelevant(goal, hyps)
 	as = append(as, kept...)
-	as = append(as, u.instantiate(kept, sk)...)
+	cands := append(append([]*Term{}, sk...), indexTerms(goal, 6)...)
+	as = append(as, u.instantiate(kept, cands)...)
 	of, op := u.instOpenFacts(o.NAssume)
 	as = append(as, of...)
 	as = append(as, u.aliasFactsFor(op, o.NAssume)...)
@@ -373,7 +379,8 @@ func (o *Obligation) RelaxedVCGoal() ([]*Term, *Term) {
 	if !hasQuant(ng) {
 		as = append(as, ng)
 	}
-	as = append(as, u.instantiate(u.assumptions[:o.NAssume], sk)...)
+	cands := append(append([]*Term{}, sk...), indexTerms([]*Term{o.Guard, ng}, 6)...)
+	as = append(as, u.instantiate(u.assumptions[:o.NAssume], cands)...)
 	of, op := u.instOpenFacts(o.NAssume)
 	as = append(as, of...)
 	as = append(as, u.aliasFactsFor(op, o.NAssume)...)
